@@ -340,7 +340,8 @@ void CheckType::checkLongCast()
             continue;
 
         if (const ValueFlow::Value* v = tok->astOperand2()->getKnownValue(ValueFlow::Value::ValueType::INT)) {
-            if (mSettings->platform.isIntValue(v->intvalue))
+            // wideintvalue: the result before the wrap-around of unsigned arithmetic
+            if (mSettings->platform.isIntValue(v->intvalue) && mSettings->platform.isIntValue(v->wideintvalue))
                 continue;
         }
 
@@ -381,7 +382,8 @@ void CheckType::checkLongCast()
                         type->originalTypeName.empty()) {
                         if (!tok->astOperand1()->hasKnownIntValue()) {
                             ret = tok;
-                        } else if (!mSettings->platform.isIntValue(tok->astOperand1()->getKnownIntValue()))
+                        } else if (!mSettings->platform.isIntValue(tok->astOperand1()->getKnownIntValue()) ||
+                                   !mSettings->platform.isIntValue(tok->astOperand1()->getKnownValue(ValueFlow::Value::ValueType::INT)->wideintvalue))
                             ret = tok;
                     }
                 }
